@@ -69,7 +69,7 @@ pub struct Summary {
 pub fn ev_counter(name: &str) -> Option<&'static str> {
     match name {
         n if n.starts_with("ev_write_lk") => Some("wsv"),
-        "ev_cas_bin_locked" | "ev_write_table" | "ev_write_next_table" | "ev_swap_waiter" => Some("wsv"),
+        "ev_cas_bin_locked" | "ev_write_table" | "ev_write_next_table" | "ev_swap_waiter" | "ev_store_bin" => Some("wsv"),
         "ev_store_nt_bin" => Some("nts"),
         "ev_alloc" => Some("allocs"),
         "ev_callback_locked" | "ev_callback" => Some("callbacks"),
